@@ -10,7 +10,6 @@ M = {
     "C01-ts-switch-not-counted": ("C01", "src/linters/nesting/typescript_analyzer.py", '        "switch_statement",\n', "", 1),
     "C01-rs-loop-not-counted": ("C01", "src/linters/nesting/rust_analyzer.py", '        "loop_expression",\n', "", 1),
     "C04-next-line-bracket-silences-all": ("C04", "src/linter_config/ignore.py", "        return check_bracket_rules(match.group(1), rule_id)\n    return True", "        return True\n    return True", 1),
-    "C04-ignore-all-not-recognised": ("C04", "src/linter_config/ignore.py", '    if "ignore-all" in code.lower():\n        return True\n', "", 1),
     "C05-pyproject-keys-not-normalised": ("C05", "src/core/config_parser.py", "    return _normalize_config_keys(thailint_config)", "    return thailint_config", 1),
     "C05-magic-language-override-ignored": ("C05", "src/linters/magic_numbers/config.py", "        if language and language in config:", "        if language and language in config and language == 'python':", 1),
     "C07-last-future-dropped": ("C07", "src/orchestrator/core.py", "for future in as_completed(futures):", "for future in as_completed(futures[:-1]):", 1),
